@@ -145,6 +145,8 @@ CONDITIONAL_KINDS = ("If", "Match", "Loop", "Closure")
 def unconditional_within(tree, top, n):
     """n is executed whenever `top` (an ancestor statement) is executed: no If branch, Match arm, loop body,
     closure or short-circuit right operand in between. Conditions of If / scrutinees are unconditional."""
+    if n is top:
+        return True
     child = n
     for a in tree.ancestors(n):
         k = a["k"]
